@@ -44,7 +44,7 @@ TScale(t, c) == [t EXCEPT !.W = NMulSmall(t.W, c), !.s1 = ZMulInt(t.s1, c), !.s2
 
 RECURSIVE TOfData(_, _, _)
 TOfData(D, i, t) == IF i > Len(D) THEN t ELSE TOfData(D, i + 1, TAdd(t, D[i][1], D[i][2]))
-TupleOf(D) == TOfData(D, 1, T0)          \* D: sequence of <<value, weight>>
+TupleOfData(D) == TOfData(D, 1, T0)      \* D: sequence of <<value, weight>>
 
 (* central sums, cleared of denominators: with mu = s1/W,                                 *)
 (*   sum w (x-mu)^2 = A2/W,   sum w (x-mu)^3 = A3/W^2,   sum w (x-mu)^4 = A4/W^3          *)
